@@ -1,5 +1,112 @@
-import RSocketModel.Engine.Step
-/-! # C10 — placeholder until the proofs land -/
+import RSocketModel.Props.C11
+/-!
+# C10 — No per-stream state survives a terminated interaction
+`Terminated` is, per interaction: request-response — response or error delivered, cancel processed;
+stream — terminal signal, cancel; channel — *both* directions closed (the library's half-close
+semantics, which the suite pins); all — connection lost.
+-/
 namespace RSocketModel.Engine
-theorem c10_placeholder : (init 1).closed = false := rfl
+
+theorem isActive_finish (st : State) (sid : Nat) :
+    (st.finish sid).isActive sid = false ∧ (st.finish sid).cache.find? (·.1 == sid) = none := by
+  constructor
+  · simp [State.isActive, State.finish]
+  · simp [State.finish, List.find?_eq_none]
+
+theorem isActive_setObj (st : State) (oid : Nat) (s : Stream) (sid : Nat) : (st.setObj oid s).isActive sid = st.isActive sid := rfl
+
+theorem markChannel_both (st : State) (oid : Nat) (s : Stream) (r t : Bool)
+    (hb : ((s.recvComplete || r) && (s.sentComplete || t)) = true) :
+    (markChannel st oid s r t).isActive s.sid = false ∧ (markChannel st oid s r t).cache.find? (·.1 == s.sid) = none := by
+  simp only [markChannel, hb, if_true]
+  exact isActive_finish _ _
+
+/-- **channels**: in every reachable state, a registered handler never has both directions
+closed — the step that closes the second direction unregisters the stream and drops its partial
+frame (this is the `chan_open` field of the state invariant, preserved by every entry point) -/
+theorem c10_channel_both_closed_not_registered (first : Nat) (lp : Bool) (evs : List Ev) (sid oid : Nat) (s : Stream)
+    (hreg : (sid, oid) ∈ (run (init first lp) evs).1.table) (ho : (run (init first lp) evs).1.obj oid = some s) :
+    ¬ (s.sentComplete = true ∧ s.recvComplete = true) :=
+  (wf_run evs (init first lp) (wf_init first lp)).chan_open (sid, oid) hreg s ho
+
+/-- … and closing the second direction does unregister it, whichever direction closes last -/
+theorem c10_channel_second_direction (st : State) (oid : Nat) (s : Stream) (r t : Bool)
+    (h1 : s.recvComplete = true ∨ r = true) (h2 : s.sentComplete = true ∨ t = true) :
+    (markChannel st oid s r t).isActive s.sid = false := by
+  apply (markChannel_both st oid s r t _).1
+  rcases h1 with h1 | h1 <;> rcases h2 with h2 | h2 <;> simp [h1, h2]
+
+section endings
+variable (st : State) (hc : st.closed = false) (sid oid : Nat) (s : Stream)
+variable (hreg : st.oidOf sid = some oid) (ho : st.obj oid = some s) (hsid : s.sid = sid) (h0 : sid ≠ 0)
+variable (hcache : st.cache.find? (·.1 == sid) = none)
+include hc hreg ho hsid h0 hcache
+
+/-- **request-response, requester**: the response (or an error) unregisters the stream -/
+theorem c10_rr_requester_response (hk : s.kind = .rrReq) (data : List Nat) (code : Nat) (b : Behaviour) :
+    (step st (.recv { ty := .payload, sid := sid, data := data, complete := true, next := !data.isEmpty } b)).1.isActive sid = false ∧
+    (step st (.recv { ty := .error, sid := sid, code := code } b)).1.isActive sid = false := by
+  subst hsid
+  constructor <;>
+  · simp [step, recvStep, hc, isFragmentable, cacheAppend, hcache, h0, isInitiate, hreg, ho, frameReceived, hk]
+    split <;> simp [State.isActive, State.finish, State.setObj]
+
+/-- **stream, requester**: a terminal signal (complete flag, bare complete, error) unregisters it -/
+theorem c10_stream_requester_terminal (hk : s.kind = .stReq) (hsub : s.subscribed = true) (data : List Nat) (code : Nat) (b : Behaviour) :
+    (step st (.recv { ty := .payload, sid := sid, data := data, complete := true, next := !data.isEmpty } b)).1.isActive sid = false ∧
+    (step st (.recv { ty := .error, sid := sid, code := code } b)).1.isActive sid = false := by
+  subst hsid
+  constructor <;>
+    simp [step, recvStep, hc, isFragmentable, cacheAppend, hcache, h0, isInitiate, hreg, ho, frameReceived, hk, hsub,
+      State.isActive, State.finish]
+
+/-- **responders**: CANCEL from the peer unregisters a request-response or stream responder -/
+theorem c10_responder_cancelled (hk : s.kind = .rrResp ∨ s.kind = .stResp) (b : Behaviour) :
+    (step st (.recv { ty := .cancel, sid := sid } b)).1.isActive sid = false := by
+  subst hsid
+  rcases hk with hk | hk
+  · simp [step, recvStep, hc, isFragmentable, cacheAppend, hcache, h0, isInitiate, hreg, ho, frameReceived, hk]
+    split <;> simp [State.isActive, State.finish, State.setObj]
+  · simp [step, recvStep, hc, isFragmentable, cacheAppend, hcache, h0, isInitiate, hreg, ho, frameReceived, hk,
+      State.isActive, State.finish]
+
+end endings
+
+/-- **local endings**: the requester's cancel, the responder's terminal signal, the done-callback
+of a request-response (response sent / cancel sent) each unregister the stream -/
+theorem c10_local_endings (st : State) (oid : Nat) (s : Stream) (ho : st.obj oid = some s) :
+    (s.kind = .stReq → (step st (.subCancel oid)).1.isActive s.sid = false) ∧
+    (s.kind = .stResp → (step st (.pubComplete oid)).1.isActive s.sid = false ∧ (step st (.pubError oid)).1.isActive s.sid = false ∧
+      ∀ d, (step st (.pubNext oid d true)).1.isActive s.sid = false) ∧
+    (s.kind = .rrResp → s.cb = true → (step st (.cbRRResp oid)).1.isActive s.sid = false) ∧
+    (s.kind = .rrReq → s.cb = true → s.fut = .cancelled → s.responseReceived = false →
+      (step st (.cbRRReq oid)).1.isActive s.sid = false) := by
+  refine ⟨?_, ?_, ?_, ?_⟩
+  · intro hk; simp only [step, apiStep, ho, hk]; exact (isActive_finish _ _).1
+  · intro hk
+    refine ⟨?_, ?_, ?_⟩
+    · simp only [step, apiStep, ho, hk]; exact (isActive_finish _ _).1
+    · simp only [step, apiStep, ho, hk]; exact (isActive_finish _ _).1
+    · intro d; simp only [step, apiStep, ho, hk, if_true]; exact (isActive_finish _ _).1
+  · intro hk hcb
+    simp only [step, apiStep, ho, hk, hcb, beq_self_eq_true, Bool.and_self, if_true]
+    split <;> exact (isActive_finish _ _).1
+  · intro hk hcb hf hr
+    simp only [step, apiStep, ho, hk, hcb, hf, hr, beq_self_eq_true, Bool.and_self, Bool.not_false, if_true]
+    exact (isActive_finish _ _).1
+
+/-- **connection loss** terminates everything: nothing stays registered -/
+theorem c10_lost_clears (st : State) (h : WF st) (hc : st.closed = false) : (step st .lost).1.table = [] :=
+  (lost_spec st h hc).2.1
+
+/-- **the id can be used again**: once a stream id is not registered (and has no partial frame),
+a new request on it is accepted, not rejected -/
+theorem c10_id_reusable (st : State) (hc : st.closed = false) (sid : Nat) (h0 : sid ≠ 0) (hna : st.isActive sid = false)
+    (hcache : st.cache.find? (·.1 == sid) = none) (data : List Nat) :
+    (step st (.recv { ty := .requestFnf, sid := sid, data := data } .ok)).2 = [.handlerCall .requestFnf data] ∧
+    (step st (.recv { ty := .requestResponse, sid := sid, data := data } .futPending)).2 =
+      [.handlerCall .requestResponse data, .created st.heap.length sid] := by
+  constructor <;>
+    simp [step, recvStep, hc, isFragmentable, cacheAppend, hcache, isInitiate, handleByType, hna, h0, State.emit, State.register]
+
 end RSocketModel.Engine
